@@ -424,10 +424,12 @@ impl Gen {
                         cuts.push((0, 0));
                     }
                 }
+                let live = f.chance(0.4);
                 Event::Recut {
                     origin,
                     version,
                     cuts,
+                    live,
                 }
             }
             6 => {
@@ -534,7 +536,7 @@ fn schedule_hash(events: &[Event]) -> u64 {
                 faults.cut_after.is_some(),
                 faults.drop.len()
             ),
-            Event::Recut { origin, cuts, .. } => format!("R{origin}{}", cuts.len()),
+            Event::Recut { origin, cuts, live, .. } => format!("R{origin}{}{}", cuts.len(), if *live { "l" } else { "" }),
             Event::Drop { msgs } => format!("X{}", msgs.len()),
             Event::Crash { node, lose_outbox } => format!("K{node}{lose_outbox}"),
             Event::Restart { node } => format!("G{node}"),
